@@ -667,6 +667,8 @@ func TestProp(t *testing.T) {
 		return
 	}
 	defer r.Finish()
+	var pool evid.Pool[Case] // rapid-drawn cases, evaluated side by side once more at the end
+	defer func() { evid.Concurrent(r, &pool, 16, Eval) }()
 	r.Regress()
 	if err := ref.SelfTest(); err != nil {
 		r.Inconclusive("reference crypto self-test failed: %v", err)
@@ -707,6 +709,9 @@ func TestProp(t *testing.T) {
 		r.Count(nt, labels...)
 		r.Sample(fmt.Sprintf("%s/%s/etype%d", c.Variant, c.Kind, c.EType), c)
 		if rt != nil {
+			if v.OK {
+				pool.Add(check, c)
+			}
 			if r.Judge(check, c, v) {
 				rt.Fatalf("violation")
 			}
